@@ -334,7 +334,7 @@ static void __print_time_unit(int64_t delta_nsec, bool needs_sign)
 		unit = units[idx];
 
 	if (needs_sign) {
-		const char *signs[] = { "+", "-" };
+		const char *signs[] = { "-", "+" };
 		const char *color_signs[] = {
 			TERM_COLOR_RED "+",  TERM_COLOR_MAGENTA "+", TERM_COLOR_NORMAL "+",
 			TERM_COLOR_BLUE "-", TERM_COLOR_CYAN "-",    TERM_COLOR_NORMAL "-",
